@@ -375,6 +375,54 @@ func gen(g *vh.Gen) {
 		statefulScripts = false
 		g.Emit("luapar", append(c.Fields(), strings.Join(hs, "+"), vh.HS(script), ml, rl, msl, secondRules(g, lastAddrs), secondRules(g, lastAddrs), secondMsgRules(g))...)
 	}
+	// abandoned rewrites: a before.message_stored handler assigns part of the message (fewer, more or other mailboxes
+	// than there are recipients; a sender; a subject) and then does NOT answer - an error, nil, a value of the wrong
+	// kind. Several recipients in one transaction; the message must reach exactly the mailboxes the policy gives them,
+	// as if the handler had not run (with and without a second listener behind it)
+	ga := g.Side("c17-abandoned")
+	for i := 0; i < g.N(40, 1200); i++ {
+		c, pool := smtpd.GenCfg(ga, o)
+		c.DA, c.DS, c.Acc, c.Rej, c.Sto, c.Dis, c.RejO, c.MaxRcpt, c.MaxBytes = true, true, "", "", "", "", "", 1000, 10240000
+		n := 1 + ga.Intn(4)
+		boxes := [][]string{{"redirected"}, {"redirected", "second"}, {"a", "b", "c", "d", "e"}, {}, {"alice"}, {"Audit", "ops+a"}}[ga.Intn(6)]
+		qs := make([]string, len(boxes))
+		for j, b := range boxes {
+			qs[j] = q(b)
+		}
+		stmts := []string{"arg1.mailboxes = {" + strings.Join(qs, ", ") + "}"}
+		if ga.Chance(0.3) {
+			stmts = append(stmts, "arg1.mailboxes[1] = \"first\"")
+		}
+		if ga.Chance(0.3) {
+			stmts = append(stmts, "arg1.from.address = \"x@y.z\"")
+		}
+		if ga.Chance(0.3) {
+			stmts = append(stmts, "arg1.subject = \"rewritten\"")
+		}
+		stmts = append(stmts, ga.Pick(`error("late failure")`, "return 7", "return nil", "return false", `return "x"`, "local z = nil\n return z.f", "return", "return {}"))
+		var mail, rcpt, msg ruleSet
+		msg.lua = []string{fmt.Sprintf("[%s] = function(arg1)\n %s\n end", q("hello"), strings.Join(stmts, "\n "))}
+		msg.labels = []string{vh.HS("hello") + "=N"}
+		script := table("mail_rules", mail) + table("rcpt_rules", rcpt) + table("msg_rules", msg) +
+			"function inbucket.before.message_stored(msg)\n local f = msg_rules[msg.subject]\n if f then return f(msg) end\nend\n"
+		var b strings.Builder
+		line := func(x string) { b.WriteString(x + "\r\n") }
+		line("HELO abandoned.example")
+		for t := 0; t < 1+ga.Intn(2); t++ {
+			line("MAIL FROM:<s@" + pool[1] + ">")
+			for j := 0; j < n; j++ {
+				line("RCPT TO:<" + []string{"alice", "bob", "carol", "dave"}[(j+t)%4] + "@" + pool[j%2] + ">")
+			}
+			line("DATA")
+			b.WriteString(smtpd.StuffLines([]string{"Subject: hello", "", "x " + strconv.Itoa(t)}))
+		}
+		line("QUIT")
+		second := "-"
+		if ga.Chance(0.4) {
+			second = vh.HS("hello") + "=R" + vh.HS(ga.Pick("second-box", "audit", "alice"))
+		}
+		ga.Emit(ga.Pick("lua", "lua", "lua", "luareload"), append(c.Fields(), vh.H([]byte(b.String())), vh.HS(script), labels(mail), labels(rcpt), labels(msg), "-", "-", second)...)
+	}
 }
 
 func exec(kind string, in []string) []string {
